@@ -93,6 +93,9 @@ def step (s : GsS) (t : List String) (implObs : String) : GsS × StepOut :=
   | none =>
   match t with
   | ["time", _, _] => (s, ⟨"ok", "ok"⟩)
+  -- calls (without any authorisation) to exported functions the model does not know: none exists on the unchanged tree;
+  -- whatever one added later does, the modelled state must stay what it is
+  | ["gs.probe_extra", _, _] => (s, ⟨"ok", "ok"⟩)
   | ["gs.new", addr, owner, collector] =>
     match parseAddr addr, parseAddr owner, parseAddr collector with
     | some a, some o, some c => ({ s with st := some { self := a, owner := o, collector := c, bank := s.bank } }, ⟨"ok", "ok"⟩)
